@@ -8,7 +8,7 @@ def run(ctx):
     run_durable(ctx, model=["s01_step_wait_retry", "s03_child_wfc", "s04_cb_invoke", "s16_wait_wait"],
                 programs=list(CURATED), oracle_fns=[oracles.c07],
                 scen_kw={"crash": 0.4, "paging": 0.3, "ext_fail": 0.3},
-                liveness_on=["s01_step_wait_retry", "s03_child_wfc", "s04_cb_invoke"],
+                liveness_on=["s01_step_wait_retry", "s04_cb_invoke"] if ctx.quick else ["s01_step_wait_retry", "s03_child_wfc", "s04_cb_invoke"],
                 extra_rule="Executions are driven to a terminal status by ModelBackend firing timers / delivering callbacks and invoke results in "
                            "scenario-chosen orders. Oracle: never STUCK (PENDING with nothing registered), never HANG, terminal within the "
                            "invocation bound, no user function running at a PENDING return.")
